@@ -67,9 +67,10 @@ type Exp struct {
 	Part  string     `json:"part,omitempty"`
 }
 type Case struct {
-	Ci     int  `json:"ci"`
-	E      Exp  `json:"e"`
-	NoRecv *Exp `json:"norecv,omitempty"`
+	Ci     int    `json:"ci"`
+	Zs     string `json:"zs"` // how this call spells the keyword "z" (a name that is no parameter): z / va / kw / loc
+	E      Exp    `json:"e"`
+	NoRecv *Exp   `json:"norecv,omitempty"`
 }
 type Unit struct {
 	ID       int      `json:"id"`
@@ -82,6 +83,17 @@ type Unit struct {
 	Via      string   `json:"via"`
 	Cases    []Case   `json:"cases"`
 }
+
+// zsOf: how the unit's call ci spells the keyword "z" (chosen by the specification per case)
+func (u *Unit) zsOf(ci int) string {
+	for i := range u.Cases {
+		if u.Cases[i].Ci == ci {
+			return u.Cases[i].Zs
+		}
+	}
+	return ""
+}
+
 type unitReq struct {
 	ID   int    `json:"id"`
 	Si   int    `json:"si,omitempty"`
@@ -139,13 +151,19 @@ func sigSource(s Sig, method bool) string {
 
 // callArgs renders the argument list of a call shape. wrap renders a positional value.
 // kwAfter places the explicit keywords after *seq (both spellings are in the 3.4 grammar).
-func callArgs(c Call, wrap func(string) string, kwAfter bool) string {
+func callArgs(c Call, zs string, wrap func(string) string, kwAfter bool) string {
 	var args, kws []string
+	spell := func(k string) string {
+		if k == "z" && zs != "" {
+			return zs
+		}
+		return k
+	}
 	for i := 1; i <= c.N; i++ {
 		args = append(args, wrap(fmt.Sprintf("p%d", i)))
 	}
 	for _, k := range c.Kws {
-		kws = append(kws, k+"="+q("kw:"+k))
+		kws = append(kws, spell(k)+"="+q("kw:"+k))
 	}
 	star := ""
 	if c.Star >= 0 {
@@ -167,7 +185,7 @@ func callArgs(c Call, wrap func(string) string, kwAfter bool) string {
 	if c.Hasss {
 		var el []string
 		for _, k := range c.Ss {
-			el = append(el, q(k)+": "+q("ss:"+k))
+			el = append(el, q(spell(k))+": "+q("ss:"+k))
 		}
 		args = append(args, "**{"+strings.Join(el, ", ")+"}")
 	}
@@ -196,6 +214,7 @@ func pyProgram(u *Unit, calls []Call, cis []int, kwAfter bool) string {
 	}
 	b.WriteString(ind + sigSource(u.Sig, method) + "\n")
 	b.WriteString(ind + "    E[0] = 1\n")
+	b.WriteString(ind + "    loc = 'local'\n") // a local variable of the body: its name is not a parameter name
 	recv := "''"
 	if method {
 		recv = "self.tag"
@@ -215,7 +234,7 @@ func pyProgram(u *Unit, calls []Call, cis []int, kwAfter bool) string {
 	}
 	b.WriteString(helperT)
 	for _, ci := range cis {
-		b.WriteString("t(lambda: " + fn + "(" + callArgs(calls[ci-1], q, kwAfter) + "))\n")
+		b.WriteString("t(lambda: " + fn + "(" + callArgs(calls[ci-1], u.zsOf(ci), q, kwAfter) + "))\n")
 	}
 	return b.String()
 }
@@ -228,7 +247,7 @@ func goProgram(u *Unit, calls []Call, cis []int, kwAfter bool) string {
 	target := map[string]string{"module": "vt.", "instance": "o.", "class": "V."}[u.Via] + fn
 	wrap := func(s string) string { return "V(" + q(s) + ")" }
 	for _, ci := range cis {
-		b.WriteString("t(lambda: " + target + "(" + callArgs(calls[ci-1], wrap, kwAfter) + "))\n")
+		b.WriteString("t(lambda: " + target + "(" + callArgs(calls[ci-1], "", wrap, kwAfter) + "))\n")
 	}
 	return b.String()
 }
@@ -580,9 +599,10 @@ func (ck *checker) detail(u *Unit, calls []Call, c *Case, o *Obs, kwAfter bool) 
 	if u.Kind == "" {
 		d["part"] = "python"
 		d["si"] = u.Si
+		d["uid"] = u.ID // the specification derives the spelling of "z" from the unit id and the call index
 		d["form"] = u.Form
 		d["signature"] = sigSource(u.Sig, u.Form == "method")
-		d["call"] = "f(" + callArgs(calls[c.Ci-1], q, kwAfter) + ")"
+		d["call"] = "f(" + callArgs(calls[c.Ci-1], c.Zs, q, kwAfter) + ")"
 		d["program"] = pyProgram(u, calls, []int{c.Ci}, kwAfter)
 	} else {
 		d["part"] = "go"
@@ -652,6 +672,7 @@ func main() {
 			Case struct {
 				Part string `json:"part"`
 				Si   int    `json:"si"`
+				Uid  int    `json:"uid"`
 				Form string `json:"form"`
 				Ci   int    `json:"ci"`
 				Kind string `json:"go_signature"`
@@ -662,7 +683,10 @@ func main() {
 			common.Inconclusive("property=C04 replay file does not hold a C04 case")
 		}
 		if rf.Case.Part == "python" {
-			pyUnits = []unitReq{{ID: 1, Si: rf.Case.Si, Form: rf.Case.Form, Cis: []int{rf.Case.Ci}}}
+			if rf.Case.Uid == 0 {
+				rf.Case.Uid = 1
+			}
+			pyUnits = []unitReq{{ID: rf.Case.Uid, Si: rf.Case.Si, Form: rf.Case.Form, Cis: []int{rf.Case.Ci}}}
 		} else {
 			k := map[string]int{"args": 1, "kwargs": 2, "noargs": 3, "onearg": 4}[rf.Case.Kind]
 			v := map[string]int{"module": 1, "instance": 2, "class": 3}[rf.Case.Via]
